@@ -14,6 +14,7 @@ import (
 	"strconv"
 	"strings"
 	"sync"
+	"syscall"
 	"time"
 
 	"github.com/go-task/task/v3/verifh/h"
@@ -33,7 +34,7 @@ var documented = func() map[int]bool {
 }()
 
 const (
-	cpuLimitSec = 30
+	cpuLimitSec = 40
 	memLimitKB  = 4 << 20 // ulimit -v, KiB
 	maxSigs     = 60
 )
@@ -134,14 +135,17 @@ func Run(id string, start time.Time) int {
 	for _, s := range seeds {
 		rn.corpus[h.Hash(string(s.Data))] = true
 	}
-	nIn := len(seeds) + h.Pick(12000, 150000)
-	nCLI := len(seeds) + h.Pick(1200, 15000)
+	nIn := len(seeds) + h.Pick(8000, 120000)
+	nCLI := len(seeds) + h.Pick(700, 12000)
 
+	if d, err := strconv.Atoi(os.Getenv("P16_DEBUG_N")); err == nil { // debugging aid only
+		nIn, nCLI = len(seeds)+d, len(seeds)+d/10
+	}
 	inputs := make([]Input, nIn)
 	h.Parallel(nIn, 16, func(i int) { inputs[i] = GenInput(seeds, i) })
 	for i := range inputs {
 		for _, m := range inputs[i].Muts {
-			rn.part.Count("mut "+strings.SplitN(m, ":", 3)[0]+":"+strings.Join(strings.SplitN(m, ":", 3)[1:min(2, len(strings.SplitN(m, ":", 3)))], ""), 1)
+			rn.part.Count("mut "+mutClass(m), 1)
 		}
 	}
 
@@ -161,9 +165,18 @@ func Run(id string, start time.Time) int {
 			"the CPU limit (" + strconv.Itoa(cpuLimitSec) + " s CPU time per CLI invocation / per in-process input) is more than two orders of magnitude above the slowest benign case",
 			"native go test -fuzz (coverage guided) is not part of this check",
 		},
-		MinEvents: int64(h.Pick(8000, 100000)), EventsKey: "inproc_inputs_started",
+		MinEvents: int64(h.Pick(6000, 90000)), EventsKey: "inproc_inputs_started",
 		Extra: map[string]any{"cpu_limit_s": cpuLimitSec, "memory_limit_kib": memLimitKB, "documented_exit_codes": "0,1,50,100-110,200-207"},
 	}, rn.part)
+}
+
+// mutClass is the mutator name without its variant ("lex:bom:utf16" -> "lex:bom").
+func mutClass(m string) string {
+	p := strings.SplitN(m, ":", 3)
+	if len(p) >= 2 {
+		return p[0] + ":" + p[1]
+	}
+	return m
 }
 
 // buildChild compiles cmd/p16child against the repository under test.
@@ -353,7 +366,7 @@ func (rn *runner) inproc(inputs []Input) {
 			from := 0
 			for from < len(mine) {
 				os.Remove(journal)
-				last, stage, done, res := rn.runChild(manifest, journal, errf, from, base)
+				last, stage, done, res := rn.runChild(manifest, journal, errf, from, -1, base)
 				rn.tally(journal)
 				if done {
 					break
@@ -381,8 +394,24 @@ func (rn *runner) inproc(inputs []Input) {
 				}
 				if sig != "" {
 					rn.part.Count("inproc_crashes", 1)
+					// replay the input alone in a fresh child: is the crash a function of the input?
+					iso := map[string]any{}
+					if !strings.HasPrefix(sig, "C16 | cpu-limit") {
+						j2, e2 := journal+".iso", errf+".iso"
+						os.Remove(j2)
+						_, stage2, done2, res2 := rn.runChild(manifest, j2, e2, last, last+1, base)
+						sig2, _ := classify(res2.Stderr, res2.Signal, res2.Exit, false, 0, "inproc:"+strings.SplitN(stage2, " ", 2)[0])
+						same := !done2 && sig2 == sig
+						iso = map[string]any{"reproduced_alone": same, "alone_stage": stage2, "alone_signature": sig2, "alone_completed": done2}
+						if same {
+							rn.part.Count("inproc_crashes_reproduced_alone", 1)
+						} else {
+							rn.part.Count("inproc_crashes_not_reproduced_alone", 1)
+							what += fmt.Sprintf(" [alone in a fresh child: completed=%v signature=%q]", done2, sig2)
+						}
+					}
 					rn.violation(sig, fmt.Sprintf("in-process %s on a mutant of %s (%v): %s", stage, in.SeedName, in.Muts, what), func() map[string]string {
-						return rn.witness(in, map[string]any{"channel": "inproc", "stage": stage, "requests": in.Requests, "exit": res.Exit, "signal": res.Signal, "stderr": h.Truncate(res.Stderr, 12000)})
+						return rn.witness(in, map[string]any{"channel": "inproc", "stage": stage, "requests": in.Requests, "exit": res.Exit, "signal": res.Signal, "stderr": h.Truncate(res.Stderr, 12000), "isolation_replay": iso})
 					})
 				}
 				rn.part.Count("inproc_child_restarts", 1)
@@ -422,6 +451,9 @@ func lastEntry(journal string) (idx int, stage string, done bool) {
 			return idx, "", true
 		}
 		if c := strings.Index(l, ":"); c > 0 {
+			if strings.HasPrefix(l[c+1:], "CPULIMIT") {
+				continue // written by the CPU guard; the entry before it names the stage
+			}
 			if n, err := strconv.Atoi(l[:c]); err == nil {
 				return n, l[c+1:], false
 			}
@@ -430,10 +462,14 @@ func lastEntry(journal string) (idx int, stage string, done bool) {
 	return -1, "", false
 }
 
-func (rn *runner) runChild(manifest, journal, errf string, from int, base string) (last int, stage string, done bool, res childResult) {
+func (rn *runner) runChild(manifest, journal, errf string, from, to int, base string) (last int, stage string, done bool, res childResult) {
 	ef, _ := os.Create(errf)
 	script := fmt.Sprintf(`ulimit -v %d; exec "$@"`, memLimitKB)
-	cmd := exec.Command("/bin/sh", "-c", script, "sh", rn.child, manifest, journal, strconv.Itoa(from), strconv.Itoa(cpuLimitSec))
+	argv := []string{"-c", script, "sh", rn.child, manifest, journal, strconv.Itoa(from), strconv.Itoa(cpuLimitSec)}
+	if to >= 0 {
+		argv = append(argv, strconv.Itoa(to))
+	}
+	cmd := exec.Command("/bin/sh", argv...)
 	cmd.Dir = base
 	cmd.Env = append(h.BaseEnv(base), "PATH=/nonexistent-p16", "TASK_X_REMOTE_TASKFILES=1")
 	cmd.Stdout, cmd.Stderr = ef, ef
@@ -468,8 +504,8 @@ wait:
 	ef.Close()
 	if cmd.ProcessState != nil {
 		res.Exit = cmd.ProcessState.ExitCode()
-		if ws, ok := cmd.ProcessState.Sys().(interface{ Signaled() bool }); ok && ws.Signaled() {
-			res.Signal = cmd.ProcessState.String()
+		if ws, ok := cmd.ProcessState.Sys().(syscall.WaitStatus); ok && ws.Signaled() {
+			res.Signal = ws.Signal().String()
 		}
 	}
 	if b, err := os.ReadFile(errf); err == nil {
@@ -509,4 +545,23 @@ func (rn *runner) tally(journal string) {
 	for k, v := range counts {
 		rn.part.Count(k, v)
 	}
+}
+
+// Dump writes inputs from, from+step, ... (< to) below dir together with a
+// manifest for cmd/p16child; a replay / debugging aid.
+func Dump(dir string, from, to, step int) error {
+	seeds, _ := LoadCorpus()
+	var mf strings.Builder
+	for i, k := from, 0; i < to; i, k = i+step, k+1 {
+		in := GenInput(seeds, i)
+		d := filepath.Join(dir, strconv.Itoa(k))
+		if err := h.WriteTree(d, in.Files()); err != nil {
+			return err
+		}
+		b, _ := json.Marshal(childInput{Dir: d, Requests: in.Requests, Assigns: in.Assigns, Insecure: in.Insecure})
+		mf.Write(b)
+		mf.WriteByte('\n')
+		fmt.Printf("%d -> %s  seed=%s muts=%v\n", i, d, in.SeedName, in.Muts)
+	}
+	return os.WriteFile(filepath.Join(dir, "manifest.jsonl"), []byte(mf.String()), 0o644)
 }
